@@ -56,6 +56,7 @@ def install():
     import allmydata.util.cputhreadpool as ctp
 
     ctp._DISABLED = True
+    ctp.deferToThreadPool = _fake_defer_to_thread_pool
     # quiet logging
     try:
         import logging
@@ -79,6 +80,27 @@ def install():
         pass
     _installed = True
     return R
+
+
+def _fake_defer_to_thread_pool(reactor, pool, f, *args, **kwargs):
+    """Stand-in for the CPU thread pool when set_thread_mode(True) is active: the function runs at once (as a free worker thread would
+    start it), but its result is handed back in a later reactor turn, as callFromThread does.  Code that keeps state on an object
+    across `await defer_to_thread(...)` therefore sees other work interleave, as in production."""
+    from twisted.internet import defer
+    from twisted.python.failure import Failure
+    d = defer.Deferred()
+    try:
+        res = f(*args, **kwargs)
+    except BaseException:
+        res = Failure()
+    R.callLater(0, d.callback, res)
+    return d
+
+
+def set_thread_mode(asynchronous):
+    """False (default): defer_to_thread runs synchronously (the repository's own test switch).  True: results arrive in a later turn."""
+    import allmydata.util.cputhreadpool as ctp
+    ctp._DISABLED = not asynchronous
 
 
 def reseed(n=0):
